@@ -271,7 +271,9 @@ impl Space for SentSpace {
         for &l in &self.limits {
             for ck in [false, true] {
                 self.check_one(&text, l, ck, &mut o);
-                self.check_reused(&text, l, ck, &mut o);
+                if l == 2 || l == 4096 {
+                    self.check_reused(&text, l, ck, &mut o);
+                }
             }
         }
         o
